@@ -538,7 +538,15 @@ fn immut_block<T: Real + Elem>(ctx: &mut Ctx, lens: &[usize]) {
 }
 
 pub fn run_c15(ctx: &mut Ctx) {
-    let (n_max, s_max) = if ctx.quick() { (512, 1 << 15) } else { (4096, 1 << 18) };
+    let (n_max, s_max) = if crate::ctx::light() {
+        // unoptimised build (a write through a pointer derived from the shared input slice is undefined behaviour that an
+        // optimised build may simply drop): small lengths, where every kernel and every helper variant is reached
+        (if ctx.quick() { 72 } else { 300 }, 0)
+    } else if ctx.quick() {
+        (512, 1 << 15)
+    } else {
+        (4096, 1 << 18)
+    };
     let bl = blocks(1, n_max, 8, s_max, 2);
     let mut item = 0usize;
     for b in &bl {
